@@ -460,7 +460,10 @@ pub fn all_families() -> Vec<(&'static str, Vec<Ty>)> {
     let quick = f_types(false);
     let names: std::collections::HashSet<String> = quick.iter().map(|t| t.rust()).collect();
     let extra: Vec<Ty> = f_types(true).into_iter().filter(|t| !names.contains(&t.rust())).collect();
-    vec![("types", quick), ("lib", f_lib(false)), ("types_thorough", extra)]
+    let hq: Vec<Ty> = crate::hist::hist_tree(false).into_iter().map(|n| n.ty).collect();
+    let hnames: std::collections::HashSet<String> = hq.iter().map(|t| t.rust()).collect();
+    let hextra: Vec<Ty> = crate::hist::hist_tree(true).into_iter().map(|n| n.ty).filter(|t| !hnames.contains(&t.rust())).collect();
+    vec![("types", quick), ("lib", f_lib(false)), ("hist", hq), ("types_thorough", extra), ("hist_thorough", hextra)]
 }
 pub fn family(name: &str) -> Vec<Ty> {
     all_families().into_iter().find(|(n, _)| *n == name).map(|x| x.1).unwrap_or_default()
